@@ -5,7 +5,8 @@
     from NewSentPacketHandler; calls that violate the API contract ([op_valid]) are not executed. *)
 From Coq Require Import List ZArith Bool.
 From V Require Import Gen.Params SentPH.Model SentPH.ProofsHist SentPH.ProofsBase SentPH.ProofsOps2 SentPH.ProofsMain
-  SentPH.ProofsAckRules SentPH.ProofsTimer.
+  SentPH.ProofsAckRules SentPH.ProofsTimer SentPH.ProofsSkipped SentPH.ProofsScalars.
+From V Require Congestion.Model.
 Import ListNotations.
 Open Scope Z_scope.
 
@@ -42,16 +43,17 @@ Theorem C06_in_flight_balance : forall client validated ipn period maxPeriod rnd
 Proof. exact in_flight_balance. Qed.
 Print Assumptions C06_in_flight_balance.
 
-(** (c) An ACK whose largest acknowledged exceeds the largest sent number is a PROTOCOL_VIOLATION
-    (error class 1) and leaves the state untouched. *)
+(** (c) An ACK whose largest acknowledged exceeds the largest sent number, or (Initial space) whose lowest
+    acknowledged lies below the first Initial packet number, is a PROTOCOL_VIOLATION (error class 1) and
+    leaves the state untouched. *)
 Theorem C06_ack_unsent : forall st orc l now delay rs s,
   sPanic st = 0 -> op_valid st (OAck l now delay rs) = true -> get_space st l = Some s ->
-  ack_largest rs > spLargestSent s ->
+  ack_largest rs > spLargestSent s \/ (l = sph_EncInitial /\ ack_lowest rs < sIPN st) ->
   step st (OAck l now delay rs, orc) = (st, 1).
 Proof. exact ack_unsent. Qed.
 Print Assumptions C06_ack_unsent.
 
-(** (c) A 1-RTT ACK covering a number that is (still) recorded as skipped is a PROTOCOL_VIOLATION; no
+(** (c) A 1-RTT ACK covering a number that is recorded as skipped is a PROTOCOL_VIOLATION; no
     callback fires, nothing is removed. *)
 Theorem C06_ack_skipped : forall st orc now delay rs pn,
   sPanic st = 0 -> op_valid st (OAck sph_Enc1RTT now delay rs) = true ->
@@ -62,17 +64,74 @@ Theorem C06_ack_skipped : forall st orc now delay rs pn,
 Proof. exact ack_skipped. Qed.
 Print Assumptions C06_ack_skipped.
 
-(** (c) REFUTED in general: a number that was skipped, never sent and lies below the largest sent
-    number can be acknowledged without error once [maxSkippedPackets] later skips pushed it out. *)
-Theorem C06_ack_any_skipped_refuted :
-  exists ops pn now delay rs orc,
-    let st := run w_init ops in
-    (exists n, In pn (hSkipped (spH (sApp (run w_init (firstn n ops)))))) /\
-    ~ In pn (map fst (h_list (spH (sApp st)))) /\ pn <= spLargestSent (sApp st) /\
-    op_valid st (OAck sph_Enc1RTT now delay rs) = true /\ acks_pn rs pn = true /\
-    snd (step st (OAck sph_Enc1RTT now delay rs, orc)) = 10.
-Proof. exact ack_any_skipped_refuted. Qed.
-Print Assumptions C06_ack_any_skipped_refuted.
+(** (c) Which skipped numbers are recorded (repaired SkippedPacket): a new skip is always recorded; an older
+    one is forgotten only when it lies below the lowest packet number still tracked (or nothing is tracked);
+    no other operation of the history touches the list. *)
+Theorem C06_skipped_recorded : forall h pn, In pn (hSkipped (h_skipped h pn)).
+Proof. exact skipped_recorded. Qed.
+Print Assumptions C06_skipped_recorded.
+
+Theorem C06_skipped_retained : forall h pn p,
+  In p (hSkipped h) ->
+  In p (hSkipped (h_skipped h pn)) \/ hPackets h = [] \/ p < hFirst h.
+Proof. exact skipped_retained. Qed.
+Print Assumptions C06_skipped_retained.
+
+Theorem C06_skipped_untouched : forall h pn p pr,
+  hSkipped (h_sent h pn p) = hSkipped h /\ hSkipped (h_sent_probe h pn p) = hSkipped h /\
+  hSkipped (h_set_probes h pr) = hSkipped h /\
+  (forall h', fst (h_remove h pn) = h' -> hSkipped h' = hSkipped h) /\
+  (forall h', fst (h_declareLost h pn) = h' -> hSkipped h' = hSkipped h).
+Proof. exact skipped_untouched. Qed.
+Print Assumptions C06_skipped_untouched.
+
+(** (c) For ALL histories: a number that was recorded as skipped at some point and is not below every packet
+    still tracked in the application-data space is still recorded at the end ... *)
+Theorem C06_skipped_kept : forall client validated ipn period maxPeriod rnd0 ops n p,
+  0 <= ipn ->
+  let i := init client validated ipn period maxPeriod rnd0 in
+  In p (hSkipped (spH (sApp (run i (firstn n ops))))) ->
+  (exists x, In x (h_list (spH (sApp (run i ops)))) /\ fst x <= p) ->
+  In p (hSkipped (spH (sApp (run i ops)))).
+Proof. exact skipped_kept. Qed.
+Print Assumptions C06_skipped_kept.
+
+(** ... hence a 1-RTT ACK covering ANY number ever skipped that lies at or above the lowest tracked packet is a
+    PROTOCOL_VIOLATION: no callback, bytesInFlight and all spaces unchanged. *)
+Theorem C06_ack_ever_skipped : forall client validated ipn period maxPeriod rnd0 ops n p orc now delay rs,
+  0 <= ipn ->
+  let i := init client validated ipn period maxPeriod rnd0 in
+  let st := run i ops in
+  In p (hSkipped (spH (sApp (run i (firstn n ops))))) ->
+  (exists x, In x (h_list (spH (sApp st))) /\ fst x <= p) ->
+  op_valid st (OAck sph_Enc1RTT now delay rs) = true -> acks_pn rs p = true ->
+  exists st' c, step st (OAck sph_Enc1RTT now delay rs, orc) = (st', c) /\
+  (c = 1 \/ c = 2) /\ sCbs st' = sCbs st /\ sBif st' = sBif st /\
+  sInit st' = sInit st /\ sHs st' = sHs st /\ sApp st' = sApp st.
+Proof. exact ack_ever_skipped. Qed.
+Print Assumptions C06_ack_ever_skipped.
+
+(** Regression (formerly C06_ack_any_skipped_refuted): five PTO expiries skip 1..5 while packet 0 is still
+    tracked; all five stay recorded and the ACK {6,1} is now a PROTOCOL_VIOLATION that changes nothing. *)
+Example C06_ack_old_skipped_rejected :
+  let st := run w_init w_ops in
+  hSkipped (spH (sApp st)) = [1; 2; 3; 4; 5] /\
+  op_valid st w_ack = true /\
+  snd (step st (w_ack, w_orc)) = 2 /\
+  sCbs (fst (step st (w_ack, w_orc))) = sCbs st /\ sBif (fst (step st (w_ack, w_orc))) = sBif st.
+Proof. exact ack_old_skipped_rejected. Qed.
+Print Assumptions C06_ack_old_skipped_rejected.
+
+(** The bounded-memory residue of the old refutation: a skipped number below every tracked packet may be
+    forgotten, and an ACK mentioning it (which cannot acknowledge anything there) is then accepted. *)
+Example C06_ack_skipped_below_window_accepted :
+  let st := run w_init w2_ops in
+  (exists n, In 1 (hSkipped (spH (sApp (run w_init (firstn n w2_ops)))))) /\
+  ~ In 1 (hSkipped (spH (sApp st))) /\
+  (forall x, In x (h_list (spH (sApp st))) -> 1 < fst x) /\
+  snd (step st (OAck 4 502001000000 0 [(9, 9); (1, 1)], (1125000, 3000000, 28000000))) = 10.
+Proof. exact ack_skipped_below_window_accepted. Qed.
+Print Assumptions C06_ack_skipped_below_window_accepted.
 
 Example C06_maxSkippedPackets_is_4 : sph_maxSkippedPackets = 4.
 Proof. reflexivity. Qed.
@@ -107,7 +166,86 @@ Proof. exact timer_armed_nonvacuous. Qed.
 Print Assumptions C06_timer_armed_nonvacuous.
 
 Example C06_exactly_once_nonvacuous :
-  let '(st, D, H) := grun w_init [] [] (w_ops ++ [(w_ack, (1125000, 3000000, 28000000))]) in
+  let '(st, D, H) := grun w_init [] [] (w_ops ++ [(OAck 4 501001000000 0 [(6, 6)], (1125000, 3000000, 28000000))]) in
   H = [1; 2] /\ D = [] /\ tracked_ids st = [] /\ sCbs st = [(1, false); (2, true)] /\ sBif st = 0.
 Proof. exact exactly_once_nonvacuous. Qed.
 Print Assumptions C06_exactly_once_nonvacuous.
+
+(** ---- Round 3: cross-property theorems at full-handler level ---- *)
+
+(** (C20) The handler's SendMode IS the Congestion unit's decision function on the gate read from the handler
+    state, when the congestion controller's CanSend answer is (bytesInFlight < cw) for the window cw it reports. *)
+Theorem C06_send_mode_is_gate : forall st cw hb,
+  sendMode st (sBif st <? cw) hb =
+  V.Congestion.Model.send_mode
+    (V.Congestion.Model.G (tracked_count st) (isAmplificationLimited st) (sProbes st) (sPtoM st) (sBif st) cw hb).
+Proof. exact sendMode_is_gate. Qed.
+Print Assumptions C06_send_mode_is_gate.
+
+(** (C20) In every reachable state: SendMode = SendAny (with a consistent congestion oracle reporting window cw)
+    implies bytesInFlight < cw, not amplification-limited, fewer tracked packets than both caps, no probe owed,
+    pacing budget; bytesInFlight is exactly the sum of the tracked in-flight packets; and any packet SentPacket
+    accepts next leaves bytesInFlight < cw + its size (= bytesInFlight + size for ack-eliciting non-probe packets). *)
+Theorem C06_send_gate_history : forall client validated ipn period maxPeriod rnd0 ops cw hb,
+  0 <= ipn ->
+  let st := run (init client validated ipn period maxPeriod rnd0) ops in
+  sendMode st (sBif st <? cw) hb = sph_SendAny ->
+  sBif st < cw /\ isAmplificationLimited st = false /\
+  tracked_count st < sph_MaxOutstandingSentPackets /\ tracked_count st < sph_MaxTrackedSentPackets /\
+  sProbes st <= 0 /\ hb = true /\
+  sBif st = msum f_incl (pk st SI) + msum f_incl (pk st SH) + msum f_incl (pk st SA) /\
+  (forall l t la sfs fs size mtu probe rnd orc,
+     op_valid st (OSend l t la sfs fs size mtu probe rnd) = true ->
+     let st' := fst (step st (OSend l t la sfs fs size mtu probe rnd, orc)) in
+     sBif st' = sBif st + (if negb probe && (negb (isnil sfs) || negb (isnil fs)) then size else 0) /\ sBif st' < cw + size).
+Proof. exact send_gate_history. Qed.
+Print Assumptions C06_send_gate_history.
+
+Example C06_send_gate_nonvacuous :
+  let st := run (init false true 0 256 131072 100)
+                [ (ODrop 1 1000000000, w_orc); (ODrop 2 1000000000, w_orc); (OSend 4 1000000000 (-1) [] [1] 1200 false false 0, w_orc) ] in
+  sendMode st (sBif st <? 40960) true = sph_SendAny /\ sBif st = 1200 /\
+  sBif (fst (step st (OSend 4 1000000001 (-1) [] [2] 1452 false false 0, w_orc))) = 2652.
+Proof. exact send_gate_nonvacuous. Qed.
+Print Assumptions C06_send_gate_nonvacuous.
+
+(** (C14) Anti-amplification through the whole handler: in every server history in which SentPacket is only
+    called when some SendMode answer is not SendNone ([gated]), while the peer address is not validated
+    bytesSent <= 3 * bytesReceived + (size of the last packet sent). *)
+Theorem C06_amplification_history : forall validated ipn period maxPeriod rnd0 ops,
+  0 <= ipn ->
+  let i := init false validated ipn period maxPeriod rnd0 in
+  gated i ops ->
+  sPAV (run i ops) = false ->
+  sSent (run i ops) <= sph_amplificationFactor * sRecv (run i ops) + last_size i ops 0.
+Proof. exact amplification_history. Qed.
+Print Assumptions C06_amplification_history.
+
+Example C06_amplification_nonvacuous :
+  let i := init false false 0 256 131072 100 in
+  gated i amp_ops /\ sPAV (run i amp_ops) = false /\
+  sSent (run i amp_ops) = 3652 /\ sRecv (run i amp_ops) = 1200 /\ last_size i amp_ops 0 = 1252 /\
+  isAmplificationLimited (run i amp_ops) = true.
+Proof. exact amplification_nonvacuous. Qed.
+Print Assumptions C06_amplification_nonvacuous.
+
+(** (d, second half) The client's anti-deadlock arm: in every client history whose events carry positive times,
+    while the client has not seen the server complete address validation and a packet was accepted by SentPacket
+    since the start or since the last ResetForRetry ([flag_run]; ResetForRetry clears the alarm until the next
+    send), the loss-detection alarm is set — even with nothing outstanding. *)
+Theorem C06_client_timer_armed : forall validated ipn period maxPeriod rnd0 ops,
+  0 <= ipn -> Forall op_pos ops ->
+  let i := init true validated ipn period maxPeriod rnd0 in
+  flag_run i ops false = true ->
+  sPCAV (run i ops) = false ->
+  aTime (sAlarm (run i ops)) <> 0.
+Proof. exact client_timer_armed. Qed.
+Print Assumptions C06_client_timer_armed.
+
+Example C06_client_timer_nonvacuous :
+  let i := init true false 0 256 131072 100 in
+  let ops := [ (OSend 1 1000000000 (-1) [] [] 1200 false false 0, w_orc) ] in
+  Forall op_pos ops /\ flag_run i ops false = true /\ sPCAV (run i ops) = false /\
+  hasOutstandingCrypto (run i ops) = false /\ aTime (sAlarm (run i ops)) = 1200000000.
+Proof. exact client_timer_nonvacuous. Qed.
+Print Assumptions C06_client_timer_nonvacuous.
